@@ -826,11 +826,13 @@ func (c *fnCtx) execAppend(st *State, cc *ssa.CallCommon, rt types.Type, pos tok
 	} else {
 		return c.freshVal(st, rt, "append")
 	}
+	// the fresh backing array is allocated first: the result's well-formedness bound
+	// (its store exists by now) must cover it
+	fr := c.allocRef(st)
 	res := c.freshVal(st, rt, "app")
 	newLen := c.addInt(s.Fs[2].S, n)
 	inPlace := c.fresh("inplace")
 	c.declare(inPlace, "Bool")
-	fr := c.allocRef(st)
 	c.assume(st, sAnd(
 		sEq(res.Fs[2].S, newLen),
 		sImp(inPlace, sAnd(c.cmpS("<=", newLen, s.Fs[3].S), sEq(res.Fs[0].S, s.Fs[0].S), sEq(res.Fs[1].S, s.Fs[1].S), sEq(res.Fs[3].S, s.Fs[3].S))),
@@ -864,6 +866,33 @@ func (c *fnCtx) execAppend(st *State, cc *ssa.CallCommon, rt types.Type, pos tok
 					fmt.Sprintf("(forall ((r Ref)) (! (=> (not (= (rootid r) (rootid %s))) (= (select %s r) (select %s r))) :pattern ((select %s r))))", fr, nh, old, nh),
 					fmt.Sprintf("(forall ((k Int)) (! (=> (and (<= 0 k) (< k %s)) (= (select %s (elm %s k)) (select %s (elm %s (+ %s k))))) :pattern ((select %s (elm %s k)))))",
 						c.idxToInt(s.Fs[2].S), nh, fr, old, s.Fs[0].S, c.idxToInt(s.Fs[1].S), nh, fr),
+				)),
+			))
+			st.heap[l.comp] = nh
+			st.hbound[l.comp] = "$cur"
+		} else if len(locs) == 1 && !c.bv && (x.K == KSlice || x.K == KStr) {
+			// append(s, x...): n elements are copied from x (read in the old heap: memmove semantics)
+			nh := c.fresh("H")
+			c.declare(nh, fmt.Sprintf("(Array Ref %s)", srt))
+			src := func(j string) string {
+				if x.K == KStr {
+					return app("sat", x.S, j)
+				}
+				return app("select", old, app("elm", x.Fs[0].S, app("+", c.idxToInt(x.Fs[1].S), j)))
+			}
+			slen, soff, nI := c.idxToInt(s.Fs[2].S), c.idxToInt(s.Fs[1].S), c.idxToInt(n)
+			lo := app("+", soff, slen)
+			hi := app("+", lo, nI)
+			c.assume(st, sAnd(
+				sImp(inPlace, sAnd(
+					fmt.Sprintf("(forall ((r Ref)) (! (or (= (select %s r) (select %s r)) (and ((_ is elm) r) (= (ebase r) %s) (<= %s (eidx r)) (< (eidx r) %s))) :pattern ((select %s r))))", nh, old, s.Fs[0].S, lo, hi, nh),
+					fmt.Sprintf("(forall ((j Int)) (! (=> (and (<= 0 j) (< j %s)) (= (select %s (elm %s (+ %s j))) %s)) :pattern ((select %s (elm %s (+ %s j))))))", nI, nh, s.Fs[0].S, lo, src("j"), nh, s.Fs[0].S, lo),
+				)),
+				sImp(sNot(inPlace), sAnd(
+					fmt.Sprintf("(forall ((r Ref)) (! (=> (not (= (rootid r) (rootid %s))) (= (select %s r) (select %s r))) :pattern ((select %s r))))", fr, nh, old, nh),
+					fmt.Sprintf("(forall ((k Int)) (! (=> (and (<= 0 k) (< k %s)) (= (select %s (elm %s k)) (select %s (elm %s (+ %s k))))) :pattern ((select %s (elm %s k)))))",
+						slen, nh, fr, old, s.Fs[0].S, soff, nh, fr),
+					fmt.Sprintf("(forall ((j Int)) (! (=> (and (<= 0 j) (< j %s)) (= (select %s (elm %s (+ %s j))) %s)) :pattern ((select %s (elm %s (+ %s j))))))", nI, nh, fr, slen, src("j"), nh, fr, slen),
 				)),
 			))
 			st.heap[l.comp] = nh
